@@ -185,14 +185,16 @@ PROPS['C14'] = Prop(
 )
 
 PROPS['C09'] = Prop(
-    functions=['policy:Enforcer.set_rules'],
+    functions=['policy:Enforcer.set_rules', 'policy:pick_default_policy_file'],
     bounded=[('bounded.loader', 'c09')],
     level='other',
     technique='bounded stand-in for the load sequence (the loader contracts over the ghost file system are not closed); set_rules proved deductively',
     explanation='BOUNDED: random layer assignments (defaults, main file, up to three policy directories with sort-order, '
                 'dot-file, sub-directory and missing-directory cases; JSON/YAML per file) against the layering oracle, '
                 'and the complete table for the choice of the policy file. PROVED: set_rules replaces / updates the '
-                'store exactly as specified.',
+                'store exactly as specified; pick_default_policy_file returns policy.json exactly when the option value is '
+                'policy.yaml, the fallback is on, policy.yaml is not found, the option was left at a default and '
+                'policy.json is found, else the configured value (complete decision table, loop-free).',
     assumptions=['bounded for the top-level clause', 'JSON and YAML spellings are compared through the real parsers only on the generated files'],
 )
 
